@@ -62,7 +62,10 @@ Print Assumptions C15_delete_cluster.
    re-enabled, removed and re-added ...) started the probe loops that exist at that moment.
    For an endpoint object of that cluster that is live and not in [sv] any more — the hypotheses say
    nothing about its Disabled and Healthy flags: drained (disabled:true) first or not, healthy or not,
-   removal treats it the same way (C15_remove_disabled_nonvacuous instantiates the disabled+unhealthy case):
+   removal treats it the same way (C15_remove_disabled_nonvacuous instantiates the disabled+unhealthy case);
+   nor about the REST of [sv]: if it contains a server whose URL cannot be turned into a client (a negative
+   name: addOrUpdateEndpoint fails, the add/update loop stops, Sync returns an error) the removal has
+   happened all the same (C15_remove_with_failed_add_nonvacuous):
    1  it leaves the endpoint map, its context is done, its probe context is done (every probe context is
       derived from its endpoint's context, on the new-endpoint path and on the update path alike), a
       health-check tick sends no probe;
@@ -259,3 +262,19 @@ Example C15_remove_disabled_nonvacuous :
   /\ snd (step true s1 (OTick 1)) = [] /\ snd (step true s1 (OTick 2)) = [EProbe 2]
   /\ live_ep s1 0 10 = None.
 Proof. vm_compute. repeat split; try reflexivity; eexists; repeat split; reflexivity. Qed.
+
+(* one sync removes endpoint 10 (object 1, a stream in flight on it) and lists an unusable server (first
+   or last in the list): nothing is added, the server names are not updated, but object 1 has left the map,
+   its context and probe context are done, the stream can only be cut; endpoint 11 (object 2) is untouched *)
+Example C15_remove_with_failed_add_nonvacuous :
+  let s := run true init demo in
+  let s1 := run true s [OUpsert 0 [5] [(-1, false); (11, false); (12, false)]] in
+  let s2 := run true s [OUpsert 0 [5; 6] [(11, false); (12, false); (-1, false)]] in
+  map (fun e => (eobj e, ename e, elive e, ecancel e)) (eps s1) = [(1, 10, false, true); (2, 11, true, false); (4, 20, true, false)]
+  /\ map (fun e => (eobj e, ename e, elive e, ecancel e)) (eps s2)
+     = [(1, 10, false, true); (2, 11, true, false); (4, 20, true, false); (5, 12, true, false)]
+  /\ resolve s2 6 = None
+  /\ map (req_done s1) (reqs s1) = [true; false; false]
+  /\ snd (step true s1 (OTick 1)) = [] /\ snd (step true s1 (OTick 2)) = [EProbe 2]
+  /\ live_ep s1 0 10 = None.
+Proof. vm_compute. repeat split; reflexivity. Qed.
